@@ -198,8 +198,9 @@ class World:
 
     def __init__(self, frontend="wsgi", prefix="/", principal="/user/",
                  index_threshold=None, root=None, autocreate=True, defaults=False,
-                 paranoid=False):
+                 paranoid=False, strict=True):
         assert frontend in ("wsgi", "aiohttp")
+        self.strict = strict
         self.frontend = frontend
         self.prefix = prefix if prefix.endswith("/") else prefix + "/"
         self.principal = principal
@@ -227,7 +228,7 @@ class World:
                 os.makedirs(self.root)
             backend.create_principal(self.principal, create_defaults=self.defaults)
         self.backend = backend
-        self.app = xweb.XandikosApp(backend, current_user_principal=self.principal)
+        self.app = xweb.XandikosApp(backend, current_user_principal=self.principal, strict=self.strict)
         if self.frontend == "aiohttp":
             self._aio = _AioServer(self.app, self.prefix)
 
